@@ -54,7 +54,7 @@ def run(chk, repo, tier):
     L9 = chk.rule('L9', 'the process-level (fcntl) unlock is reachable only when every holder table is empty '
                         '(path condition over the emptiness flags); an upgrade never unlocks first', floor=1)
 
-    classes = [c for c in m.classes.values()]
+    classes, scope_funcs = repo.scope(m)
     flows = {}
     wait_sites = []      # (cls, func, while node, lockattr)
     field_owner = {}     # (cls, field) -> lock
@@ -447,7 +447,7 @@ def run(chk, repo, tier):
                 break
 
     # ---- L7 single-yield protocol
-    for f in m.functions.values():
+    for f in scope_funcs:
         if not is_contextmanager(f):
             continue
         cfg = flows[f.fq].cfg if f.fq in flows else CFG(f.node)
